@@ -1,6 +1,7 @@
 package gcs
 
 import (
+	"bufio"
 	"bytes"
 	"compress/gzip"
 	"crypto/md5"
@@ -8,6 +9,8 @@ import (
 	"encoding/json"
 	"fmt"
 	"io"
+	"mime"
+	"mime/multipart"
 	"net/http"
 	"net/url"
 	"os"
@@ -532,6 +535,77 @@ func (s *Server) Exec(op *Op, hist map[string][]int64, opIndex int) {
 		op.Conds = s.resolve(op.Conds, b, n, hist[b+"\x00"+n])
 		condParams(q, op.Conds)
 		s.finish(r, s.do("DELETE", s.URL+"/storage/v1/b/"+url.PathEscape(b)+"/o/"+esc(n, op.Slash)+"?"+q.Encode(), nil, nil, false))
+	case "Batch":
+		// sub-requests (Delete, GetMeta, GetBucket, Patch) in one multipart/mixed body; conditions are resolved
+		// against what was last read back, i.e. the state before the batch
+		var body bytes.Buffer
+		for i := range op.Parts {
+			p := &op.Parts[i]
+			pb, pn := string(p.B), string(p.N)
+			if p.Ev != "GetBucket" {
+				s.noteName(pb, pn)
+			}
+			pq := url.Values{}
+			var method, path string
+			var pbody []byte
+			switch p.Ev {
+			case "Delete":
+				p.Conds = s.resolve(p.Conds, pb, pn, hist[pb+"\x00"+pn])
+				condParams(pq, p.Conds)
+				method, path = "DELETE", "/storage/v1/b/"+url.PathEscape(pb)+"/o/"+esc(pn, false)
+			case "GetMeta":
+				method, path = "GET", "/storage/v1/b/"+url.PathEscape(pb)+"/o/"+esc(pn, false)
+			case "GetBucket":
+				method, path = "GET", "/storage/v1/b/"+url.PathEscape(pb)
+			case "Patch":
+				p.Conds = s.resolve(p.Conds, pb, pn, hist[pb+"\x00"+pn])
+				condParams(pq, p.Conds)
+				method, path = "PATCH", "/storage/v1/b/"+url.PathEscape(pb)+"/o/"+esc(pn, false)
+				pbody = objectJSON("", p.Attrs, p.Meta, "")
+			default:
+				panic("batch part " + p.Ev)
+			}
+			if enc := pq.Encode(); enc != "" {
+				path += "?" + enc
+			}
+			fmt.Fprintf(&body, "--verifbatch\r\nContent-Type: application/http\r\n")
+			if len(p.Cid) > 0 {
+				fmt.Fprintf(&body, "Content-ID: %s\r\n", p.Cid)
+			}
+			fmt.Fprintf(&body, "\r\n%s %s HTTP/1.1\r\n", method, path)
+			if pbody != nil {
+				fmt.Fprintf(&body, "Content-Type: application/json\r\nContent-Length: %d\r\n\r\n%s\r\n", len(pbody), pbody)
+			} else {
+				body.WriteString("\r\n\r\n")
+			}
+		}
+		body.WriteString("--verifbatch--\r\n")
+		res := s.do("POST", s.URL+"/batch/storage/v1", map[string]string{"Content-Type": "multipart/mixed; boundary=verifbatch"}, body.Bytes(), false)
+		s.finish(r, res)
+		if res.code == 200 {
+			if _, params, err := mime.ParseMediaType(res.header.Get("Content-Type")); err == nil {
+				mr := multipart.NewReader(bytes.NewReader(res.body), params["boundary"])
+				for {
+					part, err := mr.NextPart()
+					if err != nil {
+						break
+					}
+					raw, _ := io.ReadAll(part)
+					pr := PartResp{Cid: j.S(part.Header.Get("Content-ID")), Resp: &Resp{}}
+					if hr, err := http.ReadResponse(bufio.NewReader(bytes.NewReader(raw)), nil); err == nil {
+						pbody, _ := io.ReadAll(hr.Body)
+						sub := httpResult{code: hr.StatusCode, header: hr.Header, body: pbody}
+						s.finish(pr.Resp, sub)
+						if hr.StatusCode == 200 {
+							s.fillObject(pr.Resp, sub)
+						}
+					} else {
+						pr.Resp.Code, pr.Resp.Raw = -1, "unparsable sub-response: "+err.Error()
+					}
+					r.Parts = append(r.Parts, pr)
+				}
+			}
+		}
 	case "Compose":
 		s.noteName(b, n)
 		op.Conds = s.resolve(op.Conds, b, n, hist[b+"\x00"+n])
